@@ -303,11 +303,10 @@ def run(prop, tier):
         wd = vlib.workdir(prop, "mc_" + cfg)
         txt = open(os.path.join(vlib.SPEC, cfg + ".cfg")).read()
         txt = txt.replace("PROPERTIES P_C07 P_C08 P_C09 P_C10", "PROPERTIES P_%s" % prop)
-        if not big:
-            txt += "\nACTION_CONSTRAINT EmitT\n"
+        txt += "\nACTION_CONSTRAINT EmitT\n"
         with open(os.path.join(wd, "run.cfg"), "w") as f:
             f.write(txt)
-        r = vlib.tlc(wd, "MCShim.tla", "run.cfg", workers=8, timeout=3000, coverage=(tier == "thorough" and not big))
+        r = vlib.tlc(wd, "MCShim.tla", "run.cfg", workers=8, timeout=3000, coverage=(tier == "thorough" and not big), stream_tag="TR")
         if r.violated:
             raise NoVerdict("the MODEL violates %s under %s (model counterexample, not a verdict on the code):\n%s" % (r.violated, cfg, r.stdout[-3000:]))
         if r.error or "Model checking completed. No error" not in r.stdout:
@@ -315,14 +314,12 @@ def run(prop, tier):
         tot_states += r.distinct
         tot_trans += r.generated
         log("[tlc] %s: %d generated / %d distinct, depth %d, %.1fs" % (cfg, r.generated, r.distinct, r.depth, r.wall))
-        if big:
-            continue
         vacuous += ["%s:%s" % (cfg, a) for a in r.coverage_zero]
-        trs = vlib.tlc_json_lines(r.stdout, "TR")
         universe = vlib.tlc_json_lines(r.stdout, "UN")[0]
         del r
-        states, labels, walks, nedges, left = plan_walks(trs, universe, rnd, budget_steps=(400000 if tier == "quick" else None))
-        del trs
+        states, labels, walks, nedges, left = plan_walks(vlib.tlc_json_file(wd, "TR"), universe, rnd,
+                                                         budget_steps=(400000 if tier == "quick" else (1500000 if big else None)))
+        os.remove(os.path.join(wd, "TR.lines"))
         stats_all["lts_edges"] += nedges
         stats_all["lts_edges_unplanned"] += left
         kinds = conf["faults"]
